@@ -9,6 +9,10 @@ from ..stencil_spec import Finding, check_moment_kernel, check_diff_kernel, Cm
 from ..report import AnalysisError
 
 
+
+def _lm_text(lm):
+    return lm.msg if getattr(lm, "plain", False) else "axes of different provenance are combined: " + lm.msg
+
 def report(R, f_default, findings, site_of=None):
     for fd in findings:
         st = fd.store
@@ -32,7 +36,7 @@ def run_kernel_forks(repo, R, qual, extra_env_factory=None, if_handler_factory=N
             for cand in repo.all_functions():
                 if any(n is lm.node for n in ast.walk(cand.node)):
                     g = cand
-            R.fail("AXTYPE-K", g.site, ast.unparse(lm.node)[:100], f"{tag} axes of different provenance are combined: {lm.msg}", where=g.where(lm.node),
+            R.fail("AXTYPE-K", g.site, ast.unparse(lm.node)[:100], f"{tag} {_lm_text(lm)}", where=g.where(lm.node),
                    expected="aligned/contracted axes of equal provenance")
             out.append((tag, None))
             continue
@@ -53,7 +57,7 @@ def run_kernel(repo, R, qual, extra_env=None, if_handler=None):
         for cand in repo.all_functions():
             if any(n is lm.node for n in ast.walk(cand.node)):
                 g = cand
-        R.fail("AXTYPE-K", g.site, ast.unparse(lm.node)[:100], f"axes of different provenance are combined: {lm.msg}", where=g.where(lm.node),
+        R.fail("AXTYPE-K", g.site, ast.unparse(lm.node)[:100], f"{_lm_text(lm)}", where=g.where(lm.node),
                expected="aligned/contracted axes of equal provenance")
         return f, None
     for sub in ex.all_extractors():
@@ -69,6 +73,8 @@ def cover_rule(R, f, ex, tag=""):
                     "on index regions for all small size parameters (a deleted or shortened recursion step leaves zeros behind)")
     thorough = getattr(R, "tier", "quick") == "thorough"
     gaps, info = cover.check(ex, bound=4 if thorough else 3, max_configs=600 if thorough else 200)
+    if info.get("events") and not info.get("configs"):
+        raise AnalysisError("COVER", "no assignment of the size parameters could be replayed", f.where())
     for g in gaps:
         ev = g.event
         cfg = dict(zip(info["parameters"], g.config))
